@@ -191,7 +191,9 @@ pub fn c11(c: &Corpus, _tier: &str) -> Report {
 
 // ------------------------------------------------------------------ C07
 /// candidate replacement layouts; each is used only under dialects that lex it purely as whitespace
-const LAYOUTS: &[&str] = &["  ", "\t", "\n", "\r", "\r\n", "\u{a0}", " /* c */ ", " -- c\n", " # c\n", " // c\n", "\n\n \t", " /* a /* b */ c */ ", "\u{3000}"];
+const LAYOUTS: &[&str] = &["  ", "\t", "\n", "\r", "\r\n", "\u{a0}", " /* c */ ", " -- c\n", " # c\n", " // c\n", "\n\n \t", " /* a /* b */ c */ ", "\u{3000}",
+    // not blank-padded: used only where the real tokenizer yields the same non-whitespace tokens
+    "/* c */", "/**/", "--c\n", "\n--\n"];
 
 fn layout_ok(d: &dyn sqlparser::dialect::Dialect, l: &str) -> bool {
     matches!(tokenize(d, true, l), G::Val(Ok(ts)) if !ts.is_empty() && ts.iter().all(|t| is_ws(&t.token)))
@@ -247,6 +249,14 @@ pub fn c07(c: &Corpus, tier: &str) -> Report {
             for (lidx, l) in layouts[k].iter().enumerate() {
                 if tier != "thorough" && !seen.insert((k, left.clone(), rc, lidx)) { continue; }
                 let t2 = format!("{}{}{}", chars[..a].iter().collect::<String>(), l, chars[b..].iter().collect::<String>());
+                if !l.starts_with(|ch: char| ch.is_whitespace()) || !l.ends_with(|ch: char| ch.is_whitespace()) {
+                    // unpadded layout: admissible only if it is lexically neutral here
+                    let same = match tokenize(d, true, &t2) {
+                        G::Val(Ok(tt)) => tt.iter().filter(|x| !is_ws(&x.token)).map(|x| &x.token).eq(toks.iter().filter(|x| !is_ws(&x.token)).map(|x| &x.token)),
+                        _ => false,
+                    };
+                    if !same { r.count("unpadded-layout-not-neutral"); continue; }
+                }
                 r.evaluations += 1;
                 let sigl = format!("{:?}", l.chars().next().unwrap());
                 match (&base, parse(d, o, &t2)) {
@@ -566,6 +576,92 @@ pub fn c15(c: &Corpus, tier: &str) -> Report {
             }
         }
         if i % 1999 == 7 { r.sample(serde_json::json!({"sql": s})); }
+    }
+    r.distinct_nontrivial = distinct.len() as u64;
+    r
+}
+
+// ------------------------------------------------------------------ C09
+/// Independent recomputation on the real tokenizer: positions are true, strictly increasing, the
+/// slices tile the input, determined token texts equal their slices, suffixes re-tokenize alike.
+pub fn c09(c: &Corpus, tier: &str, seed: u64) -> Report {
+    use sqlparser::tokenizer::Whitespace;
+    let mut r = Report::new("C09", "oracle.tiling", "corpus literals and generated fragment soup x 13 dialects x both unescape modes on the real tokenizer: first token at 1:1, locations strictly increasing and equal to (1 + #LF before, 1 + chars since last LF) of a char offset, slices between consecutive offsets tile the text, slice == Display text for words/numbers/punctuation/comments (quoted bodies when unescape is off), tokenizing the suffix at every token boundary reproduces the remaining tokens; non-trivial = distinct (token variant, dialect)");
+    let ds = all_dialects();
+    let mut distinct = BTreeSet::new();
+    let mut rng = Rng(seed ^ 0xC09);
+    let frags = ["SELECT", " ", "\n", "\t", "\r\n", "1e5", "1.5E-10", "2e+3", ".5", "1.", "0x1F", "'a''b'", "\"q\"", "`b`", "[x]", "--c\n", "/* c */", "a.b", "@v", "#t", "$1", "$$x$$", "?", "?1", "::", "->>", "<=>", "||", "é", "𝒳", "N'x'", "E'\\n'", "U&'\\0041'", "1e", "1ea", ";", ",", "(", ")", "x'AB'", "%s", "a-b", "1a", "_x", "\u{a0}"];
+    let mut texts: Vec<String> = c.literals.iter().filter(|s| s.len() < 600).cloned().collect();
+    let nsoup = if tier == "thorough" { 60000 } else { 6000 };
+    for _ in 0..nsoup {
+        let k = 2 + rng.below(7);
+        texts.push((0..k).map(|_| *rng.pick(&frags)).collect::<Vec<_>>().join(if rng.chance(1, 3) { " " } else { "" }));
+    }
+    for (ti, s) in texts.iter().enumerate() {
+        let li = LineIndex::new(s);
+        let chars: Vec<char> = s.chars().collect();
+        for (k, (dn, d)) in ds.iter().enumerate() {
+            if tier != "thorough" && (ti + k) % 4 != 0 { continue; }
+            for un in [true, false] {
+                let o = Opts { unescape: un, trailing: None, limit: None };
+                let toks = match tokenize(d.as_ref(), un, s) { G::Val(Ok(t)) => t, G::Val(Err(_)) => continue, G::Panic(m) => { r.panic(dn, o, s, m); continue; } };
+                r.evaluations += 1;
+                let mut offs = vec![];
+                let mut bad = None;
+                for (i, t) in toks.iter().enumerate() {
+                    match li.offset(t.location.line, t.location.column) {
+                        Some(off) if off <= chars.len() => {
+                            // true line/col of that offset
+                            let nl = chars[..off].iter().filter(|c| **c == '\n').count() as u64 + 1;
+                            let col = (off - chars[..off].iter().rposition(|c| *c == '\n').map(|p| p + 1).unwrap_or(0)) as u64 + 1;
+                            if (nl, col) != (t.location.line, t.location.column) { bad = Some(format!("token {i} location {}:{} is not a true position", t.location.line, t.location.column)); }
+                            if let Some(&prev) = offs.last() { if off <= prev { bad = Some(format!("token {i} position not strictly increasing")); } }
+                            offs.push(off);
+                        }
+                        _ => { bad = Some(format!("token {i} location {}:{} outside the text", t.location.line, t.location.column)); break; }
+                    }
+                }
+                if bad.is_none() && !toks.is_empty() && offs[0] != 0 { bad = Some("first token does not start at offset 0".into()); }
+                if let Some(b) = bad { r.fail("position/wrong".into(), dn, o, s, b); continue; }
+                for (i, t) in toks.iter().enumerate() {
+                    distinct.insert((crate::canon::tok_variant(&t.token), k));
+                    let end = if i + 1 < toks.len() { offs[i + 1] } else { chars.len() };
+                    let slice: String = chars[offs[i]..end].iter().collect();
+                    let determined = match &t.token {
+                        Token::Word(w) => w.quote_style.is_none(),
+                        Token::Number(..) | Token::Char(_) | Token::Placeholder(_) | Token::CustomBinaryOperator(_) => true,
+                        Token::Whitespace(Whitespace::Space) | Token::Whitespace(Whitespace::Newline) | Token::Whitespace(Whitespace::Tab) => false,
+                        Token::Whitespace(_) => true,
+                        Token::SingleQuotedString(_) | Token::DoubleQuotedString(_) => !un,
+                        Token::HexStringLiteral(_) | Token::Neq | Token::EOF => false,
+                        Token::DollarQuotedString(_) | Token::NationalStringLiteral(_) | Token::EscapedStringLiteral(_) | Token::UnicodeStringLiteral(_) => false,
+                        Token::TripleSingleQuotedString(_) | Token::TripleDoubleQuotedString(_) => false,
+                        Token::SingleQuotedByteStringLiteral(_) | Token::DoubleQuotedByteStringLiteral(_) | Token::TripleSingleQuotedByteStringLiteral(_) | Token::TripleDoubleQuotedByteStringLiteral(_) => false,
+                        Token::SingleQuotedRawStringLiteral(_) | Token::DoubleQuotedRawStringLiteral(_) | Token::TripleSingleQuotedRawStringLiteral(_) | Token::TripleDoubleQuotedRawStringLiteral(_) => false,
+                        _ => true,
+                    };
+                    let shown = match &t.token { Token::Number(n, l) => format!("{n}{}", if *l { "L" } else { "" }), x => x.to_string() };
+                    if determined && i + 1 < toks.len() && slice != shown {
+                        r.fail(format!("slice-differs/{}", crate::canon::tok_variant(&t.token)), dn, o, s, format!("token {i}: slice {slice:?} vs text {shown:?}"));
+                        break;
+                    }
+                    // suffix stability (sampled: every boundary in thorough, every 3rd otherwise)
+                    if i > 0 && (tier == "thorough" || i % 3 == 1) {
+                        let suffix: String = chars[offs[i]..].iter().collect();
+                        match tokenize(d.as_ref(), un, &suffix) {
+                            G::Val(Ok(st)) => {
+                                let a: Vec<&Token> = st.iter().map(|x| &x.token).collect();
+                                let b: Vec<&Token> = toks[i..].iter().map(|x| &x.token).collect();
+                                if a != b { r.fail("suffix-unstable".into(), dn, o, s, format!("at token {i} (offset {})", offs[i])); break; }
+                            }
+                            G::Val(Err(e)) => { r.fail("suffix-unstable".into(), dn, o, s, format!("suffix at token {i} fails: {e}")); break; }
+                            G::Panic(m) => r.panic(dn, o, &suffix, m),
+                        }
+                    }
+                }
+                if r.evaluations % 20011 == 1 { r.sample(serde_json::json!({"dialect": dn, "unescape": un, "text": s, "tokens": toks.len()})); }
+            }
+        }
     }
     r.distinct_nontrivial = distinct.len() as u64;
     r
